@@ -306,7 +306,7 @@ CHECKS["C10"] = {
          "params": {"quick": grid(cmd=[1], symcase=[1], symtag=[0], len=[1], chunked=[0]) + grid(cmd=[1], symcase=[0], symtag=[1], len=[1], chunked=[0]) + grid(cmd=[1], symcase=[0], symtag=[0], len=[1, 2, 3], chunked=[0]) + grid(cmd=[0], symcase=[0], symtag=[0], len=[1], chunked=[0]) + grid(cmd=[8], symcase=[0], symtag=[0], len=[1], chunked=[0], bigset=[0, 1]) + grid(cmd=[1], symcase=[0], symtag=[0], len=[2], chunked=[1]), "thorough": grid(cmd=list(range(11)), symcase=[1], symtag=[0, 1], len=[1], chunked=[0]) + grid(cmd=[0, 1, 7, 8, 10], symcase=[0], symtag=[0], len=[2, 3], chunked=[0, 1]) + grid(cmd=[1], symcase=[0], symtag=[0], len=[5], chunked=[0, 1]) + grid(cmd=[8, 9], symcase=[0], symtag=[0], len=[1], chunked=[0], bigset=[1])},
          "summarise": SCAN_SUMMARISE, "cover": []},
         {"name": "fetch", "pkg": "imap/command", "pkgname": "command", "entry": "VerifC10Fetch", "files": C10_FILES,
-         "params": {"quick": grid(natt=[0, 1], fam=[0], symcase=[1]) + grid(natt=[1], fam=[1], flen=[0], symcase=[1]), "thorough": grid(natt=[0, 1], fam=[0], symcase=[1], symset=[0, 1]) + grid(natt=[1], fam=[1], flen=[0, 1, 2], symcase=[0, 1])},
+         "params": {"quick": grid(natt=[0, 1], fam=[0], symcase=[1]) + grid(natt=[1], fam=[1], flen=[0], symcase=[1]) + grid(natt=[2], fam=[2], symcase=[0]), "thorough": grid(natt=[0, 1], fam=[0], symcase=[1], symset=[0, 1]) + grid(natt=[1], fam=[1], flen=[0, 1, 2], symcase=[0, 1]) + grid(natt=[2, 3], fam=[2], symcase=[0])},
          "summarise": SCAN_SUMMARISE, "cover": []},
         {"name": "store", "pkg": "imap/command", "pkgname": "command", "entry": "VerifC10Store", "files": C10_FILES,
          "params": {"quick": grid(nflags=[0, 1], symcase=[1]) + grid(nflags=[2], symcase=[0]), "thorough": grid(nflags=[0, 1, 2], symcase=[1], symset=[0, 1]) + grid(nflags=[3], symcase=[0])},
@@ -414,3 +414,20 @@ CHECKS["C18"] = {
     "outside": ["'each user has its own database, store and connector' is object wiring, not a computation (the login harness checks that the session is bound to the matching user's object)", "real time (that the jail lasts exactly loginJailTime)", "non-ASCII credential bytes"],
     "assumptions": [],
 }
+
+
+# Cross-solver check: the arithmetic kernels (full-width bit-vector reasoning, where a solver bug would matter most)
+# are decided a second time by a solver from a different code base (z3 4.8.12 next to the default cvc5 1.0).
+# Not for C16's digit strings: z3 4.8.12 answers unknown on the 20-digit Horner chains within the 60 s limit (measured).
+def _z3_twins():
+    for prop, names in (("C17", ["limits"]), ("C13", ["partial"]), ("C04", ["generator", "incremental"])):
+        hs = CHECKS[prop]["harnesses"]
+        for h in list(hs):
+            if h["name"] in names:
+                twin = dict(h)
+                twin["name"] = h["name"] + "-z3"
+                twin["solver"] = "z3"
+                hs.append(twin)
+
+
+_z3_twins()
